@@ -161,13 +161,16 @@ enum ExpEv {
     Disconnect(Option<DR>, &'static str),
 }
 
-type Snap = (Vec<Range<u64>>, Vec<Option<usize>>, usize);
+/// (.., bit patterns of the received / sent byte rates the connection reports: a dead connection accepts no packets,
+/// so a packet handed to it leaves them where they were)
+type Snap = (Vec<Range<u64>>, Vec<Option<usize>>, usize, (u64, u64));
 
 fn snap(c: &RenetClient, chans: &[ChanSpec]) -> Snap {
     (
         c.verif_pending_acks(),
         chans.iter().map(|s| c.verif_receive_memory(s.id)).collect(),
         c.verif_sent_packets_len(),
+        (c.bytes_received_per_sec().to_bits(), c.bytes_sent_per_sec().to_bits()),
     )
 }
 
@@ -178,6 +181,8 @@ fn snap_diff(a: &Snap, b: &Snap) -> Option<&'static str> {
         Some("receive-memory")
     } else if a.2 != b.2 {
         Some("sent-packets")
+    } else if a.3 != b.3 {
+        Some("traffic-statistics")
     } else {
         None
     }
